@@ -71,6 +71,8 @@ def scenarios(mod, rng):
                   ('call', dict(c, orders=[12], angles=[0, 202], bd=1, seed=sd()))])
         S.append([('call', dict(c, orders=[0, 2], angles=[22, 2], bd=1, seed=sd())), ('cleanup',),
                   ('call', dict(c, orders=[0, 2], angles=[202], bd=1, seed=sd()))])
+        S.append([('seed', 1, (11, (0, 2), (22, 2), 1, 0), 'good'),
+                  ('call', dict(c, orders=[0, 2], angles=[202], bd=1, seed=sd()))])
         S.append([('call', dict(c, orders=[0, 2], angles=[0, 202], bd=None, seed=sd())),
                   ('call', dict(c, orders=[0, 2], angles=[0, 102], bd=H.BADDIR, seed=sd())),
                   ('call', dict(c, orders=[0, 2], angles=[0, 102], bd=None, seed=sd()))])
@@ -86,6 +88,12 @@ def scenarios(mod, rng):
                   ('call', dict(c, order=4, seed=sd()))])
         S.append([('call', dict(c, bd=1, seed=sd())), ('cleanup', 'all'), ('call', dict(c, rmax=1, bd=1, seed=sd())),
                   ('cleanup', 'all'), ('call', dict(c, order=0, bd=1, seed=sd()))])
+        S.append([('call', dict(c, wid=1, seed=sd())), ('call', dict(c, wid=1, rmax=2, seed=sd())),
+                  ('call', dict(c, wid=1, rmax=2, seed=sd()))])
+        g = dict(kind='getbs', rmax=4, order=2, odd=False, direction='inverse', reg=0, mask=1, bd=None, seed=0)
+        S.append([('call', dict(c, seed=sd())), ('call', g)])
+        S.append([('call', dict(c, seed=sd())), ('cleanup', 'inverse'), ('call', g), ('call', dict(c, seed=sd()))])
+        S.append([('call', dict(g, mask=0)), ('call', g), ('call', dict(g, direction='forward'))])
     return S
 
 
@@ -105,6 +113,8 @@ def classify(mod, ops, recs, out, ref):
             return 'C07:daun:degree3-crops-larger-basis-file'
     if mod == 'linbasex':
         prev = [r['op'][1] for r in earlier_calls]
+        # files that appeared in the directory count like earlier calls
+        prev += [dict(orders=list(o[2][1]), angles=list(o[2][2])) for o in ops if o[0] == 'seed']
         for p in prev:
             if p['orders'] != last['orders'] and ''.join(map(str, p['orders'])) == ''.join(map(str, last['orders'])):
                 return 'C07:linbasex:key-collision-orders'
@@ -114,6 +124,8 @@ def classify(mod, ops, recs, out, ref):
         if raised:
             return 'C07:linbasex:keys-assigned-before-basis-exists'
     if mod == 'rbasex':
+        if any(o[0] == 'call' and o[1].get('kind') == 'getbs' for o in ops):
+            return 'C07:rbasex:transform-matrices-not-keyed-by-valid'
         if any(o[0] == 'mutw' for o in ops):
             return 'C07:rbasex:weights-cached-by-identity'
         if out[0] == 'exc' and out[1] == 'AttributeError' and any(H.Rbasex.RMAXS[r['op'][1]['rmax']] == 'foo' for r in raised):
@@ -148,6 +160,8 @@ WHAT = {
         'rbasex: _tri_prm assigned before reg is validated; repeating the invalid call returns stale matrices',
     'C07:rbasex:bs-prm-assigned-before-load': 'rbasex: _bs_prm assigned before _load_bs; a raising load leaves the old basis under the new key',
     'C07:rbasex:image-basis-not-keyed-by-output-geometry': 'rbasex: _ibs image basis reused for another output geometry',
+    'C07:rbasex:transform-matrices-not-keyed-by-valid':
+        'rbasex: _trf / _tri are not keyed by the valid mask; the public get_bs_cached returns (and can leave behind) matrices masked for another mask',
 }
 
 
@@ -176,6 +190,7 @@ def dir_helper_checks(ctx, root):
     import abel.transform as T
     hits = []
     n = 0
+    saved_xdg = os.environ.get('XDG_CACHE_HOME')
     os.environ['XDG_CACHE_HOME'] = os.path.join(root, 'xdg2')
     d = os.path.join(root, 'helpers')
     os.makedirs(d, exist_ok=True)
@@ -214,6 +229,9 @@ def dir_helper_checks(ctx, root):
                          'basis_dir_cleanup(method=%r) removed %r' % (m, sorted(removed))))
         for f in os.listdir(d):
             os.remove(os.path.join(d, f))
+    T._basis_dir = ''
+    if saved_xdg is not None:
+        os.environ['XDG_CACHE_HOME'] = saved_xdg
     codes = lambda s: H.cnats([ord(ch) for ch in s])       # noqa
     items = ['(Bool.eqb (cleanup_matches %s %s) %s)' % (codes(m), codes(f), H.cbool(r)) for m, f, r in pairs]
     text = HDR + 'From PA Require Import base.QClose model.BasisDir.\nEval vm_compute in (count_true %s, false_idx 0 %s).\n' % (
@@ -293,7 +311,7 @@ def run(ctx):
             calls = [r for h in hists for r in h if r['op'][0] == 'call' and r['ref'] is not None]
             for r in [calls[i] for i in rng.choice(len(calls), size=min(len(calls), 2 if ctx.quick else 8), replace=False)]:
                 c = dict(r['op'][1])
-                if mod == 'rbasex' and c['wid']:
+                if mod == 'rbasex' and c.get('wid'):
                     c['wver'] = r['aux']['wver']
                 fp = H.fresh_process(os.path.join(root, 'fp'), mod, c)
                 n_fp += 1
